@@ -35,7 +35,7 @@ pub enum PK {
     UI,
 }
 
-pub const NPAIRS: usize = 150;
+pub const NPAIRS: usize = 246;
 
 macro_rules! pairs {
     ($( $i:literal : $S:ident => $D:ident , $k:ident ; )*) => {
@@ -210,6 +210,104 @@ pairs! {
     147: U33F31 => U33F31, USqrt;
     148: U42F86 => U42F86, USqrt;
     149: U33F31 => I42F86, UI;
+    // source != destination, systematically: the 32-bit source into 64- and 128-bit destinations, and 64-bit sources into
+    // 128-bit destinations at the fraction widths fs, fs+8, 2fs-9, 2fs-8, 2fs-4, 2fs, the widest, and the middle
+    150: I9F23 => I41F23, Cross;
+    151: I9F23 => I40F24, Cross;
+    152: I9F23 => I36F28, Cross;
+    153: I9F23 => I28F36, Cross;
+    154: I9F23 => I24F40, Cross;
+    155: I9F23 => I17F47, Cross;
+    156: I9F23 => I16F48, Cross;
+    157: I9F23 => I12F52, Cross;
+    158: I9F23 => I105F23, Cross;
+    159: I9F23 => I96F32, Cross;
+    160: I9F23 => I90F38, Cross;
+    161: I9F23 => I82F46, Cross;
+    162: I9F23 => I41F87, Cross;
+    163: I9F23 => I9F119, Cross;
+    164: I41F23 => I105F23, Cross;
+    165: I41F23 => I97F31, Cross;
+    166: I41F23 => I91F37, Cross;
+    167: I41F23 => I90F38, Cross;
+    168: I41F23 => I86F42, Cross;
+    169: I41F23 => I82F46, Cross;
+    170: I41F23 => I73F55, Cross;
+    171: I41F23 => I41F87, Cross;
+    172: I40F24 => I104F24, Cross;
+    173: I40F24 => I96F32, Cross;
+    174: I40F24 => I89F39, Cross;
+    175: I40F24 => I88F40, Cross;
+    176: I40F24 => I84F44, Cross;
+    177: I40F24 => I80F48, Cross;
+    178: I40F24 => I72F56, Cross;
+    179: I40F24 => I40F88, Cross;
+    180: I36F28 => I100F28, Cross;
+    181: I36F28 => I92F36, Cross;
+    182: I36F28 => I81F47, Cross;
+    183: I36F28 => I80F48, Cross;
+    184: I36F28 => I76F52, Cross;
+    185: I36F28 => I72F56, Cross;
+    186: I36F28 => I68F60, Cross;
+    187: I36F28 => I36F92, Cross;
+    188: I32F32 => I96F32, Cross;
+    189: I32F32 => I88F40, Cross;
+    190: I32F32 => I73F55, Cross;
+    191: I32F32 => I72F56, Cross;
+    192: I32F32 => I68F60, Cross;
+    193: I32F32 => I32F96, Cross;
+    194: I28F36 => I92F36, Cross;
+    195: I28F36 => I84F44, Cross;
+    196: I28F36 => I65F63, Cross;
+    197: I28F36 => I64F64, Cross;
+    198: I28F36 => I60F68, Cross;
+    199: I28F36 => I56F72, Cross;
+    200: I28F36 => I28F100, Cross;
+    201: I24F40 => I88F40, Cross;
+    202: I24F40 => I80F48, Cross;
+    203: I24F40 => I57F71, Cross;
+    204: I24F40 => I56F72, Cross;
+    205: I24F40 => I52F76, Cross;
+    206: I24F40 => I48F80, Cross;
+    207: I24F40 => I24F104, Cross;
+    208: I20F44 => I84F44, Cross;
+    209: I20F44 => I76F52, Cross;
+    210: I20F44 => I52F76, Cross;
+    211: I20F44 => I49F79, Cross;
+    212: I20F44 => I48F80, Cross;
+    213: I20F44 => I44F84, Cross;
+    214: I20F44 => I40F88, Cross;
+    215: I20F44 => I20F108, Cross;
+    216: I16F48 => I80F48, Cross;
+    217: I16F48 => I72F56, Cross;
+    218: I16F48 => I48F80, Cross;
+    219: I16F48 => I41F87, Cross;
+    220: I16F48 => I36F92, Cross;
+    221: I16F48 => I32F96, Cross;
+    222: I16F48 => I16F112, Cross;
+    223: I12F52 => I76F52, Cross;
+    224: I12F52 => I68F60, Cross;
+    225: I12F52 => I44F84, Cross;
+    226: I12F52 => I33F95, Cross;
+    227: I12F52 => I32F96, Cross;
+    228: I12F52 => I28F100, Cross;
+    229: I12F52 => I24F104, Cross;
+    230: I12F52 => I12F116, Cross;
+    231: I9F55 => I73F55, Cross;
+    232: I9F55 => I65F63, Cross;
+    233: I9F55 => I41F87, Cross;
+    234: I9F55 => I27F101, Cross;
+    235: I9F55 => I26F102, Cross;
+    236: I9F55 => I22F106, Cross;
+    237: I9F55 => I18F110, Cross;
+    238: I9F55 => I9F119, Cross;
+    239: U9F23 => U33F31, USqrt;
+    240: U33F31 => U42F86, USqrt;
+    241: U9F23 => U64F64, USqrt;
+    242: U32F32 => U96F32, USqrt;
+    243: U9F23 => I64F64, UI;
+    244: U32F32 => I96F32, UI;
+    245: U33F31 => I34F94, UI;
 }
 
 pub fn accepts(pk: PK, op: u16) -> bool {
